@@ -48,7 +48,7 @@ var propSpecs = map[string]PropSpec{
 		ID: "C02",
 		Harnesses: []HarnessSpec{
 			{Pkg: "rux", Name: "verifHarness_C02_params", Quick: map[string]int{"L": 8}, Thorough: map[string]int{"L": 11},
-				NCfgQ: 56, Covers: []string{"C02 dynamic match", "C02 no match", "C02 static", "C02 repeat on caching router"}},
+				NCfgQ: 31 * 3, Covers: []string{"C02 dynamic match", "C02 no match", "C02 static", "C02 repeat on caching router"}},
 		},
 		Assumptions: []string{
 			"statement checked directly on every path that returns a dynamic route: key set == variable names; some presence choice of the optional tail makes pattern[values] == path byte for byte with absent variables empty; every present value is in its variable's regex language (Go regexp membership formula on the value bytes)",
@@ -56,22 +56,22 @@ var propSpecs = map[string]PropSpec{
 			"request path in normal form (see C01); method GET; one route per table",
 			"parameters as returned by QuickMatch; the copy into Context.Params is covered by the dispatch harnesses (C10)",
 		},
-		Bounds:     map[string]string{"L": "path length 1..8 quick / 1..11 thorough, all byte values", "T": "28 patterns (1-3 variables, default/global/custom regexes, optional tails, catch-all .+) x cache off/on"},
+		Bounds:     map[string]string{"L": "path length 1..8 quick / 1..11 thorough, all byte values", "T": "31 patterns (1-3 variables, default/global/custom regexes incl. custom regexes on variables named like global ones, optional tails, catch-all .+) x cache off / on / capacity 1 with an interleaved request"},
 		Symbolic:   []string{"every byte of the request path"},
 		Enumerated: []string{"pattern", "cache on/off", "path length"},
 	},
 	"C07": {
 		ID: "C07",
 		Harnesses: []HarnessSpec{
-			{Pkg: "rux", Name: "verifHarness_C07_twin", Quick: map[string]int{"L": 5, "K": 2}, Thorough: map[string]int{"L": 6, "K": 3},
-				NCfgQ: 12, SampleQ: 6, Covers: []string{"C07 answer served from the cache"}},
+			{Pkg: "rux", Name: "verifHarness_C07_twin", Quick: map[string]int{"L": 4, "K": 2}, Thorough: map[string]int{"L": 6, "K": 3},
+				NCfgQ: 15, Covers: []string{"C07 answer served from the cache"}},
 		},
 		Assumptions: []string{
 			"twin routers built by the same registration program, caching off vs CachingWithNum(0..2); same request history on both; answers compared observationally (route name, path, methods, middleware count, parameter map contents, allowed-method set)",
 			"all request paths of one history have the same (forked) length and independent symbolic bytes, so 'same path again' (hit) and 'another path' (miss/eviction) are solver cases",
 			"handlers treat Params as read-only; registration finished before the first request",
 		},
-		Bounds:     map[string]string{"K": "history length 2 quick / 3 thorough", "L": "path length 1..5 / 1..6", "cap": "cache capacity 0,1,2", "T": "12 tables (6 sampled per quick run) x HandleMethodNotAllowed on/off x methods GET/HEAD/POST per request"},
+		Bounds:     map[string]string{"K": "history length 2 quick / 3 thorough", "L": "path length 1..4 / 1..6", "cap": "cache capacity 0,1,2", "T": "15 tables (incl. multi-method routes overlapped by earlier single-method ones) x HandleMethodNotAllowed on/off x methods GET/HEAD/POST per request"},
 		Symbolic:   []string{"every byte of every request path"},
 		Enumerated: []string{"table", "capacity", "option", "request methods", "path length"},
 	},
@@ -82,9 +82,9 @@ var propSpecs = map[string]PropSpec{
 				Covers: []string{"C13 method accepted", "C13 method rejected"}},
 			{Pkg: "rux", Name: "verifHarness_C13_varRegex", Quick: map[string]int{"L": 5}, Thorough: map[string]int{"L": 7},
 				Covers: []string{"C13 regex accepted", "C13 regex rejected"}},
-			{Pkg: "rux", Name: "verifHarness_C13_invalidRejected", NCfgQ: 14, Covers: []string{"C13 invalid definition tried"}},
+			{Pkg: "rux", Name: "verifHarness_C13_invalidRejected", NCfgQ: 17, Covers: []string{"C13 invalid definition tried"}},
 			{Pkg: "rux", Name: "verifHarness_C13_lookupTotal", Quick: map[string]int{"L": 4}, Thorough: map[string]int{"L": 6},
-				NCfgQ: 16 * 19, SampleQ: 40, NCfgT: 16 * (1 + 18 + 18*18), SampleT: 400, Covers: []string{"C13 lookup tried"}},
+				NCfgQ: 16 * 19, SampleQ: 26, NCfgT: 16 * (1 + 18 + 18*18), SampleT: 400, Covers: []string{"C13 lookup tried"}},
 		},
 		Assumptions: []string{
 			"method-name harness: ASCII bytes (strings.ToUpper on non-ASCII is outside the byte-level encoding)",
@@ -100,7 +100,7 @@ var propSpecs = map[string]PropSpec{
 		ID: "C14",
 		Harnesses: []HarnessSpec{
 			{Pkg: "rux", Name: "verifHarness_C14_lruStep", Covers: []string{"C14 set", "C14 get hit", "C14 delete hit"}},
-			{Pkg: "rux", Name: "verifHarness_C14_routerRepeat", Quick: map[string]int{"L": 7}, Thorough: map[string]int{"L": 10}, NCfgQ: 28,
+			{Pkg: "rux", Name: "verifHarness_C14_routerRepeat", Quick: map[string]int{"L": 7}, Thorough: map[string]int{"L": 10}, NCfgQ: 31,
 				Covers: []string{"C14 repeat"}},
 		},
 		Assumptions: []string{
@@ -115,7 +115,7 @@ var propSpecs = map[string]PropSpec{
 	"C04": {
 		ID: "C04",
 		Harnesses: []HarnessSpec{
-			{Pkg: "rux", Name: "verifHarness_C04_onion", NCfgQ: 10368, SampleQ: 300, SampleT: 10368, Covers: []string{"C04 program run"}},
+			{Pkg: "rux", Name: "verifHarness_C04_onion", NCfgQ: 10368, SampleQ: 110, SampleT: 10368, Covers: []string{"C04 program run"}},
 			{Pkg: "rux", Name: "verifHarness_C04_cursor", Covers: []string{"C04 long chain"}},
 			{Pkg: "rux", Name: "verifHarness_C04_D8_witness", Witness: "D8"},
 		},
@@ -124,7 +124,7 @@ var propSpecs = map[string]PropSpec{
 			"behaviours: every handler calls Next() kd in {0,1,2} times, one deviant handler with its own count",
 			"chains whose cursor can exceed 62 by increments alone are the known findings D8/D9 and are checked by witness harnesses only",
 		},
-		Bounds:     map[string]string{"P": "registration-program family of 10368 programs (0-2 global middleware in up to three Use calls incl. after the routes, group/nested-group/route middleware counts, Use inside a group, later Route.Use, custom or default NotFound/NotAllowed); 300 sampled per quick run, all in thorough", "n": "cursor harness: chains of 8..20 handlers"},
+		Bounds:     map[string]string{"P": "registration-program family of 10368 programs (0-2 global middleware in up to three Use calls incl. after the routes, group/nested-group/route middleware counts, Use inside a group, later Route.Use, custom or default NotFound/NotAllowed); 110 sampled per quick run, all in thorough", "n": "cursor harness: chains of 8..20 handlers"},
 		Symbolic:   []string{"none beyond path/branch feasibility: this property's space is programs x behaviours, explored by forking (stated as enumerated)"},
 		Enumerated: []string{"registration programs", "request target (6 routes, 404, 405)", "per-handler Next() counts"},
 	},
@@ -134,6 +134,7 @@ var propSpecs = map[string]PropSpec{
 			{Pkg: "rux", Name: "verifHarness_C05_abort", Quick: map[string]int{"N": 4}, Thorough: map[string]int{"N": 6}, Covers: []string{"C05 abort scenario"}},
 			{Pkg: "rux", Name: "verifHarness_C05_nextStep", Covers: []string{"C05 next step", "C05 aborted cursor"}},
 			{Pkg: "rux", Name: "verifHarness_C05_longChain", Covers: []string{"C05 long chain"}},
+			{Pkg: "rux", Name: "verifHarness_C05_limitShapes", Covers: []string{"C05 chain refused at registration", "C05 chain accepted at the limit"}},
 			{Pkg: "rux", Name: "verifHarness_C05_D9_witness", Witness: "D9"},
 		},
 		Assumptions: []string{
